@@ -38,6 +38,9 @@ CONFIGS = [
     # the general Arakawa C convention with its coordinate names given as a mapping in another order than face, left, back, node
     ('ArakawaC', {'coordinate_order': ('face', 'node', 'back', 'left')}, ['face', 'left', 'back', 'node']),
     ('ArakawaC', {'coordinate_order': ('node', 'left', 'face', 'back')}, ['face', 'left', 'back', 'node']),
+    # a curvilinear grid whose longitude variable stores its two dimensions the other way round than the latitude variable (xarray aligns by
+    # name; CF does not ask for the same order): the grid is the latitude variable's (y, x)
+    ('CFGrid2D', {'lon_transposed': True}, ['face']),
 ]
 
 
